@@ -3,7 +3,6 @@ package markup
 import (
 	"fmt"
 	"io"
-	"math"
 	"regexp"
 	"slices"
 	"strconv"
@@ -493,7 +492,7 @@ func (lineParser *LineParser) parseValue() (Value, error) {
 	if match, err := lineParser.peekNumeric(); err != nil {
 		return Value{}, err
 	} else if match {
-		i, err := lineParser.parseInteger()
+		integerDigits, err := lineParser.parseDigits()
 		if err != nil {
 			return Value{}, fmt.Errorf("failed to parse integer: %w", err)
 		}
@@ -504,14 +503,24 @@ func (lineParser *LineParser) parseValue() (Value, error) {
 				return Value{}, err
 			}
 
-			fraction, err := lineParser.parseInteger()
+			fractionDigits, err := lineParser.parseDigits()
 			if err != nil {
 				return Value{}, fmt.Errorf("failed to parse fraction: %w", err)
+			} else if fractionDigits == "" {
+				return Value{}, fmt.Errorf("failed to parse fraction: no digit after the decimal point in line %q", lineParser.input)
 			}
-			f := float64(i) + float64(fraction)*float64(math.Pow10(-len(strconv.Itoa(fraction))))
+			// the digits are kept as written: the leading zeros of the fraction count
+			f, err := strconv.ParseFloat(integerDigits+"."+fractionDigits, 64)
+			if err != nil {
+				return Value{}, fmt.Errorf("failed to parse decimal number: %w", err)
+			}
 
 			return Value{FloatValue: f, ValueType: ValueTypeFloat}, nil
 		} else {
+			i, err := strconv.Atoi(integerDigits)
+			if err != nil {
+				return Value{}, fmt.Errorf("failed to parse integer: %w", err)
+			}
 			return Value{IntegerValue: i, ValueType: ValueTypeInteger}, nil
 		}
 	}
@@ -540,9 +549,10 @@ func (lineParser *LineParser) parseValue() (Value, error) {
 	}
 }
 
-func (lineParser *LineParser) parseInteger() (int, error) {
+// parseDigits reads a (possibly empty) run of digits.
+func (lineParser *LineParser) parseDigits() (string, error) {
 	if err := lineParser.consumeWhitespace(); err != nil {
-		return 0, fmt.Errorf("failed to consume whitespace: %w", err)
+		return "", fmt.Errorf("failed to consume whitespace: %w", err)
 	}
 
 	builder := strings.Builder{}
@@ -550,22 +560,18 @@ func (lineParser *LineParser) parseInteger() (int, error) {
 	for {
 		nextRune, err := peekRune(lineParser.reader)
 		if err == io.EOF {
-			return 0, fmt.Errorf("unexpected end of line inside markup in line %q", lineParser.input)
+			return "", fmt.Errorf("unexpected end of line inside markup in line %q", lineParser.input)
 		} else if err != nil {
-			return 0, fmt.Errorf("failed to peek next rune: %w", err)
+			return "", fmt.Errorf("failed to peek next rune: %w", err)
 		}
 		if unicode.IsDigit(nextRune) {
 			if _, _, err := lineParser.reader.ReadRune(); err != nil {
-				return 0, fmt.Errorf("failed to read next rune: %w", err)
+				return "", fmt.Errorf("failed to read next rune: %w", err)
 			}
 			lineParser.sourcePosition++
 			builder.WriteRune(nextRune)
 		} else {
-			i, err := strconv.Atoi(builder.String())
-			if err != nil {
-				return 0, fmt.Errorf("failed to parse integer: %w", err)
-			}
-			return i, nil
+			return builder.String(), nil
 		}
 	}
 }
